@@ -124,8 +124,19 @@ def normalise_name(raw):
     return _IMPL_AT.sub(rep, raw)
 
 
+PROMOTED_STR = {}  # (normalised owner fn name, promoted index) -> string literal, for `&&str` promoteds (filled by parse)
+
+
+def _parse_promoted_strs(text):
+    for m in re.finditer(r'^const (.+?)::promoted\[(\d+)\]: &&str = \{\n(?:.*\n)*?\}', text, re.M):
+        lit = re.search(r'_\d+ = const "((?:[^"\\]|\\.)*)";', m.group(0))
+        if lit:
+            PROMOTED_STR[(normalise_name(m.group(1)), int(m.group(2)))] = lit.group(1)
+
+
 def parse(text):
     """Parse a MIR dump into {normalised fn name: Func}.  Names that collide get '#n' suffixes."""
+    _parse_promoted_strs(text)
     funcs = {}
     cur = None
     blk = None
